@@ -182,10 +182,15 @@ def run(case):
             fails.append("global coords not carried over")
         oll = out.wcs.low_level_wcs
         tl = t
-        p = [0.5] * nd
-        a = np.atleast_1d(oll.pixel_to_world_values(*p)); b = np.atleast_1d(tl.pixel_to_world_values(*p))
-        if not np.allclose(np.asarray(a, dtype=float), np.asarray(b, dtype=float), rtol=1e-12, equal_nan=True):
-            fails.append("the result's wcs is not the requested target")
+        for p in ([0.5] * nd, [float(k) for k in range(nd)], [1.25 * (nd - k) for k in range(nd)]):
+            a = np.atleast_1d(oll.pixel_to_world_values(*p)); b = np.atleast_1d(tl.pixel_to_world_values(*p))
+            if not np.allclose(np.asarray(a, dtype=float), np.asarray(b, dtype=float), rtol=1e-12, equal_nan=True):
+                fails.append("the result's wcs is not the requested target")
+                break
+        if oll.pixel_n_dim != nd or [str(x) for x in oll.world_axis_physical_types] != tgt_types:
+            fails.append("the result's wcs does not have the target's axes")
+        if fp is not None and tuple(np.asarray(fp).shape) != tuple(out_shape):
+            fails.append(f"footprint shape {np.asarray(fp).shape}, requested output shape {tuple(out_shape)}")
         if case["kind"] in ("same", "shift") and not fails:
             s_arr = [-d for d in case["shift"]]
             want = np.full(out_shape, np.nan)
